@@ -51,7 +51,8 @@ def r09_1_order(chk):
     df = ix.get_class("DLISFile")
     gen = df.lookup("generator")
     chk.consult(gen)
-    et = {n: ix.get_class(n) for n in ("FileHeaderSet", "OriginSet", "ChannelSet", "FrameSet", "ZoneSet", "AxisSet")}
+    et = {n: ix.get_class(n) for n in ("FileHeaderSet", "OriginSet", "ChannelSet", "FrameSet", "ZoneSet", "AxisSet",
+                                        "WellReferencePointSet", "PathSet")}
     lf_cls = ix.get_class("LogicalFile")
     fhi_cls = ix.get_class("FileHeaderItem")
     it = Interp(ix)
@@ -65,7 +66,10 @@ def r09_1_order(chk):
     lfs, expect = [], []
     layouts = [
         # registration order deliberately not "origin first": zone, origin(named), channel, origin(default), frame
-        [("ZoneSet", None), ("OriginSet", "B"), ("ChannelSet", None), ("OriginSet", None), ("FrameSet", None)],
+        # (WELL-REFERENCE shares the ORIGIN's logical record type OLR and PATH the FRAME's: the order is by set class,
+        #  not by record type)
+        [("ZoneSet", None), ("WellReferencePointSet", None), ("OriginSet", "B"), ("ChannelSet", None),
+         ("OriginSet", None), ("PathSet", None), ("FrameSet", None)],
         [("ChannelSet", "X"), ("AxisSet", None), ("OriginSet", None), ("FrameSet", "X"), ("ChannelSet", None)],
     ]
     mfd_all = []
